@@ -48,6 +48,10 @@ pub struct FloodScenario {
     pub block_writes: bool,
     /// the peer never grants E any send window (legal, and hostile)
     pub withhold_window: bool,
+    /// the peer never acknowledges E's SETTINGS (legal for a long time, and hostile)
+    pub withhold_settings_ack: bool,
+    /// padding of the DATA frames of the tiny-data kind
+    pub data_pad: Option<u8>,
     pub pace: usize,
     pub sched: Sched,
     pub prof: [DirProfile; 2],
@@ -120,6 +124,12 @@ pub fn gen_flood_kinds(seed: u64, only: &[String]) -> FloodScenario {
         client_polls_push: rng.chance(1, 2),
         block_writes: blockable && rng.chance(2, 5),
         withhold_window: rng.chance(1, 3),
+        withhold_settings_ack: matches!(kind, "continuation" | "big-headers" | "tiny-data" | "empty-data" | "open-rst") && rng.chance(1, 3),
+        data_pad: match rng.below(3) {
+            0 => Some(255),
+            1 => Some(rng.below(20) as u8),
+            _ => None,
+        },
         pace: *rng.pick(&[0usize, 0, 1, 4, 25]),
         sched: gen_sched(&mut rng),
         prof,
@@ -131,7 +141,7 @@ impl FloodScenario {
         serde_json::json!({
             "seed": self.seed, "family": "flood", "e": if self.e_server { "server" } else { "client" }, "kind": self.kind, "variant": self.variant,
             "n": self.n, "cfg": self.cfg.to_json(), "lers": format!("{:?}", self.cfg.max_local_error_reset_streams), "budget": self.cfg.data_frame_budget,
-            "app": format!("{:?}", self.app), "polls_push": self.client_polls_push, "block_writes": self.block_writes, "withhold_window": self.withhold_window, "pace": self.pace,
+            "app": format!("{:?}", self.app), "polls_push": self.client_polls_push, "block_writes": self.block_writes, "withhold_window": self.withhold_window, "withhold_settings_ack": self.withhold_settings_ack, "data_pad": self.data_pad, "pace": self.pace,
             "sched": format!("{:?}", self.sched), "prof": [format!("{:?}", self.prof[0]), format!("{:?}", self.prof[1])],
         })
     }
@@ -165,9 +175,12 @@ pub struct FloodReport {
     pub goaway_codes: Vec<u32>,
     pub rst_codes: Vec<u32>,
     pub prelude_ok: bool,
+    pub small_frame_overhead: u64,
+    pub target_rst_after_flood: Option<u32>,
 }
 
 struct FloodState {
+    small_frame_overhead: u64,
     target: u32,
     parent: u32,
     next_promised: u32,
@@ -271,13 +284,18 @@ fn flood_item(p: &mut RawPeer, sc: &FloodScenario, st: &mut FloodState, i: usize
             let sid = st.target;
             let iws = p.sh.e_iws;
             let sw = *p.sh.stream_window.entry(sid).or_insert(iws);
-            if size as i64 > sw.min(p.sh.conn_window) {
+            let pad = if sc.kind == "tiny-data" { sc.data_pad } else { None };
+            let flow = size as i64 + pad.map(|x| 1 + x as i64).unwrap_or(0);
+            if flow > sw.min(p.sh.conn_window) {
                 return false;
             }
             let payload = vec![b'z'; size];
-            data(sid, &payload, false, None, out);
-            *p.sh.stream_window.get_mut(&sid).unwrap() -= size as i64;
-            p.sh.conn_window -= size as i64;
+            data(sid, &payload, false, pad, out);
+            *p.sh.stream_window.get_mut(&sid).unwrap() -= flow;
+            p.sh.conn_window -= flow;
+            if size > 0 && size < 256 {
+                st.small_frame_overhead += 256 - size as u64;
+            }
             true
         }
         "ping" => {
@@ -390,13 +408,16 @@ fn flood_item(p: &mut RawPeer, sc: &FloodScenario, st: &mut FloodState, i: usize
 
 async fn flood_peer(mut p: RawPeer, sc: FloodScenario, len: usize, rep: Rc<RefCell<FloodReport>>, hook: SnapHook) {
     let mut rng = Rng::new(sc.seed ^ 0xabcd);
+    if sc.withhold_settings_ack {
+        p.auto_ack_settings = false;
+    }
     if !p.handshake(&[]).await {
         return;
     }
     if sc.withhold_window {
         p.auto_grant = false;
     }
-    let mut st = FloodState { target: 0, parent: 0, next_promised: 2, cyc: 0, done: false };
+    let mut st = FloodState { small_frame_overhead: 0, target: 0, parent: 0, next_promised: 2, cyc: 0, done: false };
     // ---- prelude: reach the state the flood needs
     if sc.e_server {
         match sc.kind {
@@ -508,6 +529,10 @@ async fn flood_peer(mut p: RawPeer, sc: FloodScenario, len: usize, rep: Rc<RefCe
         let mut r = rep.borrow_mut();
         r.e_read_after_flood = e_read_total(&p);
         r.sent_after_flood = r.bytes_sent;
+        r.small_frame_overhead = st.small_frame_overhead;
+        // outcome as seen right after the flood (before the epilogue lets the application go on)
+        r.goaway_codes = p.sh.e_goaways.iter().map(|g| g.1).collect();
+        r.target_rst_after_flood = p.sh.streams.get(&st.target).and_then(|x| x.rst);
     }
     if sc.block_writes {
         let pipe = p.pipe;
@@ -691,6 +716,29 @@ pub fn run_flood(sc: &FloodScenario) -> Outcome {
             stats.inc("flood.blocked_reply_checks");
             if consumed > limit {
                 violations.push(Violation::new("C18", "keeps-consuming-frames-that-need-replies-while-writes-are-blocked", format!("{} flood ({}): E consumed {} bytes of {} sent while its writes were blocked (limit {})", sc.kind, tag, consumed, r.sent_after_flood - r.sent_at_block, limit)));
+            }
+        }
+    }
+    // floods with a configured cut-off must end in a refusal, not be accommodated
+    for (r, tag, len) in [(&r1, "n", sc.n), (&r8, "8n", sc.n * 8)] {
+        if !r.prelude_ok || !r.stopped_early.is_empty() && r.stopped_early != "transport-closed-by-e" && r.stopped_early != "eof-from-e" {
+            continue;
+        }
+        let refused = r.goaway_codes.iter().any(|c| *c != 0) || r.target_rst_after_flood.is_some() || !r.stopped_early.is_empty();
+        let not_reading = matches!(sc.app, AppMode::Hold | AppMode::Ignore);
+        let mfs = sc.cfg.max_frame_size.unwrap_or(16_384) as usize;
+        let cont_bound = (2 * (sc.cfg.max_header_list_size.unwrap_or(16 << 20) as usize / mfs + 1) + 4).max(8);
+        let due: Option<String> = match sc.kind {
+            "continuation" if r.items_sent > cont_bound + 2 => Some(format!("{} CONTINUATION frames on one header block, more than 2 x (max_header_list_size / max_frame_size + 1) + 4 = {}", r.items_sent, cont_bound)),
+            "empty-data" if r.items_sent > 120 => Some(format!("{} empty DATA frames, quota 100", r.items_sent)),
+            "tiny-data" if not_reading && r.small_frame_overhead > sc.cfg.data_frame_budget.unwrap_or(25_600) as u64 + 512 => Some(format!("{} small DATA frames with {} octets of framing overhead (256 - payload each) buffered for an application that is not reading, data_frame_budget {}", r.items_sent, r.small_frame_overhead, sc.cfg.data_frame_budget.unwrap_or(25_600))),
+            _ => None,
+        };
+        let _ = len;
+        if let Some(why) = due {
+            stats.inc("flood.refusal_due_checks");
+            if !refused {
+                violations.push(Violation::new("C18", format!("flood-accommodated-instead-of-refused:{}:{}", if sc.e_server { "server" } else { "client" }, sc.kind), format!("{} run: {}; the endpoint neither sent an error GOAWAY nor reset the stream nor closed (goaway codes {:?})", tag, why, r.goaway_codes)));
             }
         }
     }
